@@ -27,6 +27,9 @@ package dns
 
 //@ func IsDuplicate [C20]
 //@   exit both: ret0 ==> callres("(*RR_Header).isDuplicate")
+// ... and nothing but the header comparison and the type's RDATA comparison decides (RDLENGTH and TTL are not criteria:
+// the same record read from a compressed and from an uncompressed message is one record)
+//@   exit only: callres("(*RR_Header).isDuplicate") ==> called("isDuplicate") && ret0 == callres("isDuplicate")
 
 // OPT pseudo-records never compare equal, not even with themselves or their copy (see known findings)
 //@ func (*OPT).isDuplicate [C20]
